@@ -79,6 +79,42 @@ def run(ctx):
                 else:
                     ctx.violation({"op": op, "path": list(acts)},
                                   "%s differs between the canonical representation and %s: %s" % (op, list(acts), diff), {"rep": rep, "version": ver})
+    # ---- the same programs on a partial direction sector (0..157.5 deg): nothing wraps there, so code paths that treat full circles
+    # specially (padding, clipping, re-sorting) take their other branch
+    pbase = S.make(version=1, grid=2)
+    pops = [op for op in ops if op not in S.WATERSHED_OPS + ["interp_like", "rotate45", "rotate_m20"]]
+    pcanon = {}
+    for acts, rep in programs:
+        if len(acts) > (1 if ctx.quick else 2) or not acts:
+            continue
+        da = pbase
+        for a in acts:
+            da = S.apply_rep(da, a)
+        for op in pops:
+            if op not in pcanon:
+                try:
+                    pcanon[op] = S.project(S.call(pbase, op))
+                except Exception:  # noqa  (an operation that does not accept partial sectors at all is not a storage question)
+                    pcanon[op] = None
+            if pcanon[op] is None:
+                continue
+            ctx.case(("partial", acts, op), True)
+            try:
+                got = S.project(S.call(da, op))
+            except Exception as ex:  # noqa
+                ctx.violation({"op": op, "path": list(acts), "raised": type(ex).__name__, "grid": "partial"},
+                              "%s raised %s on representation %s of a partial-sector spectrum (works on the canonical one)" % (op, type(ex).__name__, list(acts)),
+                              {"err": str(ex)[:300]})
+                continue
+            rel = 3e-5 if rep["width"] == 32 else 1e-9
+            if op in ("tp", "tp_raw", "fp", "dp", "dpm", "dpspr", "alpha"):
+                rel = max(rel, 3e-6)
+            diff = S.circular_same(got, pcanon[op], rel) if op in CIRC else S.same(got, pcanon[op], rel, abs_=1e-7 if rep["width"] == 32 else 1e-9)
+            if diff is None:
+                ctx.replayed()
+            else:
+                ctx.violation({"op": op, "path": list(acts), "grid": "partial"},
+                              "%s on a partial direction sector differs between the canonical representation and %s: %s" % (op, list(acts), diff), {"rep": rep})
     if programs:
         ctx.sample({"kind": "program", "actions": list(programs[len(programs) // 2][0]), "rep": programs[len(programs) // 2][1], "ops": ops[:6]})
     ctx.assume("energies are integer-valued (float32-exact) so a dtype cast does not change the contents; float32 results compared at 3e-5")
